@@ -130,8 +130,9 @@ def rule_m3(chk: Check, ix: Index, ir, rule_id: str = "M3-flag-typestate"):
              any(norm_stmt(s) == "self._call_macro = False" for s in n.body) and
              any(isinstance(s, ast.Break) for s in n.body) and
              any("self._stack.append(tok)" in norm_stmt(s) for s in n.body) for n in own_nodes(f.node))
-    chk.require(ok, rule_id, "_call_macro:closing-paren", f.where,
-                "on the closing `)` the call-macro scanner must push the token back, switch the flag off and stop")
+    from .checks.bufeval import arbitrate
+    arbitrate(chk, ok, rule_id, "_call_macro:closing-paren", f.where,
+              "on the closing `)` the call-macro scanner must push the token back, switch the flag off and stop")
 
 
 def _walk(it):
